@@ -791,8 +791,63 @@ class Batch:
         self.items = []
 
 
+def directed_sample(ctx):
+    """Two situations outside the schedule alphabet: (1) latest has two consumers and the first removes itself (destroy()) while an
+    element is being delivered - the other consumer still gets that element and every later one; (2) an arrival that reaches the node
+    on another thread than the loop's (a loop-less producer attached with connect(), the loop in its background thread) - the sleeping
+    delivery coroutine must be woken.  Both are judged by the property statement alone."""
+    import time as _time
+    from streamz import Stream
+    from tornado.ioloop import IOLoop
+    for first in (True, False):
+        got, holder = [], {}
+
+        async def main(loop, first=first, got=got, holder=holder):
+            src = Stream(asynchronous=True, loop=IOLoop.current())
+            lat = src.latest()
+
+            def oneshot(x):
+                holder["s"].destroy()
+            if first:
+                holder["s"] = lat.sink(oneshot)
+                lat.sink(got.append)
+            else:
+                lat.sink(got.append)
+                holder["s"] = lat.sink(oneshot)
+            for x in (1, 2, 3):
+                await src.emit(x)
+                await vloop.settle(loop)
+        vloop.run(main)
+        case = {"directed": "self-removing-consumer", "removed_consumer_attached_first": first}
+        ctx.case(case, nontrivial=True)
+        ctx.count("directed:self-removing-consumer")
+        if got != [1, 2, 3]:
+            ctx.failure("latest-lost-wakeup:consumer-removed-during-delivery", "latest with two consumers, one of which destroys itself during "
+                        "its first delivery: the other consumer received %r of the arrivals [1, 2, 3] (each delivered while the consumer was free)" % (got,), case)
+    # (2)
+    src = Stream(asynchronous=False)
+    lat = src.latest()
+    got = lat.sink_to_list()
+    other = Stream()
+    other.connect(lat)
+    sent = []
+    for x in ("a", "b", "c"):
+        other.emit(x)                   # runs latest.update on THIS thread; the node's loop lives in the background thread
+        sent.append(x)
+        t0 = _time.time()
+        while (not got or got[-1] != x) and _time.time() - t0 < 20:
+            _time.sleep(0.005)
+    case = {"directed": "arrival-from-another-thread"}
+    ctx.case(case, nontrivial=True)
+    ctx.count("directed:arrival-from-another-thread")
+    if got != sent:
+        ctx.failure("latest-lost-wakeup:off-thread-arrival", "elements %r arrived one by one from another thread (each after the previous one had been "
+                    "delivered, or 20 s later); delivered %r" % (sent, got), case)
+
+
 def run(ctx):
     ctx.audit()
+    directed_sample(ctx)
     ctx.assumptions += [
         "elements are identified by arrival index (the harness emits distinct objects and recognises them by identity)",
         "update() is called on the loop thread (Stream.emit guarantees it: synchronous emit goes through sync(loop, ...))",
@@ -903,6 +958,10 @@ def run(ctx):
 
 def replay(ctx, data):
     ctx.audit()
+    if data["case"].get("directed"):
+        directed_sample(ctx)
+        ctx.coverage["rule"] = "replay: directed sample"
+        return
     batch = Batch(ctx)
     batch.add(execute(dict(data["case"])), "replay")
     batch.judge()
